@@ -170,6 +170,11 @@ class EncoderHistory(Harness):
             return c.M([("a", 1), ("g", c.G([("b", object())]))])
         if self.first == "converts":
             return c.M([("g", c.G([("b", 1)])), ("g", c.G([("c", 2), ("c", 3)]))])
+        # a module with valid groups and no object whose encoding fails BEFORE the first group is reached
+        if self.first == "raises_before_group":
+            return c.M([("s", []), ("g", c.G([("b", 1)])), ("h", c.G([("c", 2)]))])
+        if self.first == "raises_before_group2":
+            return c.M([("a", object()), ("g", c.G([("b", 1)]))])
         # failures part-way through a value, at different places of the encoder
         if self.first == "raises_in_seq":
             return c.M([("a", [1, "both \" and '", 3])])
@@ -302,8 +307,8 @@ def obligations(tier):
             for t in (("top3", "group") if quick else temps):
                 obs.append(ParserHistory(dialect=p, template=t, first=first))
     for d in ("PVL", "ODL", "PDS3", "ISIS"):
-        for first in ("succeeds", "raises", "converts"):
-            for shape in ("group", "grouponly", "seq"):
+        for first in ("succeeds", "raises", "converts", "raises_before_group", "raises_before_group2"):
+            for shape in ("group", "grouponly", "seq", "nested"):
                 obs.append(EncoderHistory(dialect=d, first=first, shape=shape, n=1))
         for first in ("raises_in_seq", "raises_in_inner_seq", "raises_in_set", "raises_in_quantity", "raises_in_block"):
             for shape in ("seq3d", "seqnone", "emptyinner", "setseq", "nestedbad", "quant") + (() if quick else ("seq2", "dupgroup")):
